@@ -315,3 +315,24 @@ Proof.
   destruct (Hs s x E) as [t [Ht [He (at_ & cls & fs & Hf & Ha)]]]. rewrite Ht. split; [|exact He].
   unfold find_root. rewrite Hf, Ha. reflexivity.
 Qed.
+
+(* the headline of C12: value() on a stream derived from dataset d, without override, runs once on d's executor
+   with remove_empty of the stream's own dump and the title - or the cleaner raises and nothing runs *)
+Theorem value_on_own_dataset : forall ops s title st' out,
+  forallb op_derived ops = true -> live (run ops) s ->
+  step (run ops) (ValueStart s None title) = (st', out) ->
+  (exists t ast, abs (heap_ (run ops)) (match nth_error (streams (run ops)) s with Some x => root x | None => 0 end) = Some t /\
+                 clean t = Ok ast /\
+                 log st' = log (run ops) ++ [(EDs (ds_spec ops s), Some ast, title)] /\
+                 out = OCall (length (calls (run ops)))) \/
+  (exists e, st' = run ops /\ out = OErr e /\ log st' = log (run ops)).
+Proof.
+  intros ops s title st' out Hp Hl H.
+  destruct (root_recoverable ops s Hp Hl) as [_ He]. unfold stream_executor in He.
+  destruct (nth_error (streams (run ops)) s) as [x|] eqn:Es; [|discriminate].
+  destruct (unfold (heap_ (run ops)) (root x)) as [t|] eqn:Et; [|discriminate].
+  destruct (value_routes_once (run ops) s None title st' out x t Es Et H) as [Ha Hm].
+  rewrite He in Hm. destruct (clean (erase t)) as [ast|e] eqn:Ec.
+  - left. exists (erase t), ast. destruct Hm as (Hlog & Hout & _). repeat split; assumption.
+  - right. exists e. destruct Hm as [-> ->]. repeat split.
+Qed.
